@@ -17,7 +17,7 @@ EXTRA = [
 
 def run(tier, seed):
     V = common.Verdict("C12", tier, seed)
-    configs = ["K17", "K17A"] if tier == "quick" else ["K17", "K17A", "K20"]
+    configs = ["K17", "K17A", "K20"]
     x = sym(0)
     for cfg in configs:
         try:
